@@ -1,8 +1,9 @@
-\* batch trace validation on the smallest test reactor (12 objects) plus copies
-CONSTANTS N = 40  Par = {"s", "a", "d", "n"}  NVal = 2  NGrid = 2  MaxDepth = 99  MaxLevel = 9999
-          GridSlot = "stack"  PickleSerial = "fresh"  Keeps = {}
+\* batch trace validation on the smallest test reactor (12 objects) plus copies and loaded reactors
+CONSTANTS N = 64  Par = {"s", "a", "d", "n"}  NVal = 2  NGrid = 2  MaxDepth = 99  MaxLevel = 9999
+          GridSlot = "stack"  PickleSerial = "fresh"  Keeps = {}  DbSerial = "max"  DbCls = {"r"}
+          CopyCls = {"r", "core", "sfp", "asm", "blk", "cmp"}
 CONSTANTS Acts <- TrActs  Parent0 <- TrParent0  Cls0 <- TrCls0
-          ParOf <- TrParOf  GridCls <- TrGridCls  MatCls <- TrMatCls
+          ParOf <- TrParOf  GridCls <- TrGridCls  MatCls <- TrMatCls  CallsOf <- TrCalls
 SPECIFICATION TSpec
 CONSTRAINT Progress
 POSTCONDITION Report
@@ -11,6 +12,7 @@ INVARIANT BackupsAreSnapshots
 INVARIANT GridBackupsAreSnapshots
 INVARIANT GateSound
 INVARIANT SerialsUnique
+INVARIANT SerialsBelowNext
 INVARIANT ExitRestores
 INVARIANT ExitRestoresGrid
 INVARIANT EnterKeepsValues
